@@ -20,7 +20,7 @@ ID = 'C15'
 LEVEL = 'exploration'
 TECHNIQUE = 'runtime monitor: open/close history checker joined with the recorder\'s per-thread invocation stack (frame identity)'
 RULE = ('generated programs (recursion, mutual recursion, nested calls, caught / re-raised / propagating exceptions, '
-        'finally, generators incl. send/throw/close and yield from, 1-3 worker threads) x 1-5 deferred tracepoints: '
+        'finally, generators incl. send/throw/close and yield from, 1-3 worker threads, 2-3 threads driven in lock step through a seeded turn order so that invocations of one function overlap across threads), 1-3 span processors, x 1-5 deferred tracepoints: '
         'line spans, method spans (by name), method_capture / line_capture snapshots (direct actions), co-located '
         'line+method tracepoints on one function incl. its last line, fire_count 1 or unlimited; non-trivial = at '
         'least one opening observed; distinct by (shapes, tracepoints)')
@@ -28,7 +28,8 @@ ASSUMPTIONS = ['one generator resume counts as one invocation (CPython reports c
                'a captured exception may be rendered as the (type, value, traceback) triple CPython hands to tracers']
 REQUIRE = {'openings': 1500, 'span_openings': 600, 'capture_openings': 300, 'recursive_openings': 60,
            'openings_in_threads': 40, 'exception_exits': 60,
-           'withdrawn_mid_flight': 30}
+           'withdrawn_mid_flight': 30, 'several_span_processors': 100,
+           'openings_overlapping_same_function_in_another_thread': 40}
 
 
 def plan(tier, seed):
@@ -38,7 +39,7 @@ def plan(tier, seed):
 
 FORCE = [['recursion'], ['mutual'], ['nested_calls'], ['try_caught'], ['finally_reraise'], ['propagate'],
          ['gen_full'], ['gen_send_throw'], ['yield_from'], ['threads'], ['method_exc'], ['else_finally'],
-         ['uncaught_in_gen'], ['with_cm'], ['recursion', 'threads'], ['klass']]
+         ['uncaught_in_gen'], ['with_cm'], ['recursion', 'threads'], ['klass'], ['lockstep'], ['lockstep', 'mutual']]
 
 
 class Inv:
@@ -104,8 +105,10 @@ def case_deferred(seed, out, spec, wd, idx):
             trigs.append(line_trigger(tp_id + 'L', prog.base, ln, dict(common, span='line', snapshot='no_collect'), [], []))
             tps.append((tp_id, 'mspan', f, fc))
             tps.append((tp_id + 'L', 'lspan', ln, fc))
-    rig = Rig(custom={'APP_ROOT': sub}, host_dir=sub,
-              plugins=[plugins.RecSpans(), plugins.RecDecorator()])
+    # one to three span processors: each of them gets its own span for every hit, closed exactly once
+    n_proc = r.pick([1, 1, 2, 3])
+    span_plugins = [plugins.RecSpans(), plugins.RecSpans2(), plugins.make('RecSpans3', ['span'], order=2)()][:n_proc]
+    rig = Rig(custom={'APP_ROOT': sub}, host_dir=sub, plugins=span_plugins + [plugins.RecDecorator()])
     rig.install(trigs)
     if r.chance(0.2):
         # the first hand-over of a snapshot fails (delivery closed / queue full): it must not be handed over again
@@ -177,14 +180,13 @@ def case_deferred(seed, out, spec, wd, idx):
         ev = rig.current_event()
         rec = {'ev': ev, 'tid': threading.get_ident()}
         if callback == 'span_open':
-            rec.update(kind='span', key=('span', name, payload['tp'], plugins.CALLS.get((name, 'span_open'), 0)),
-                       tp=payload['tp'])
-            rec['key'] = ('span', len(opens_span))
+            # called from inside the plugin's own record step: its call counter already includes this call
+            rec.update(kind='span', key=(name, plugins.CALLS.get((name, 'span_open'), 1) - 1), tp=payload['tp'])
             opens_span.append(rec)
             with lock:
                 opens.append(rec)
         elif callback == 'span_close':
-            rec.update(kind='span', span=payload['span'])
+            rec.update(kind='span', span=(name, payload['span']))
             with lock:
                 closes.append(rec)
         elif callback == 'decorate':
@@ -213,6 +215,8 @@ def case_deferred(seed, out, spec, wd, idx):
                'agent_log': [short(x, 200) for x in logs[-2:]]}
     if withdrawn:
         out.count('withdrawn_mid_flight')
+    if n_proc > 1:
+        out.count('several_span_processors')
     if exc is not None:
         out.inconc('C15 harness body raised %r' % (exc,))
         return
@@ -230,8 +234,8 @@ def case_deferred(seed, out, spec, wd, idx):
         n_open += 1
         ev = o['ev']
         inv = by_event_inv.get(ev.seq) if ev is not None else None
-        cs = close_by_idx.get(i, [])
-        where = '%s span of %s opened at %s:%s in %s()' % ('method' if ev and ev.kind == 'call' else 'line', o['tp'],
+        cs = close_by_idx.get(o['key'], [])
+        where = '%s span of %s (processor %s) opened at %s:%s in %s()' % ('method' if ev and ev.kind == 'call' else 'line', o['tp'], o['key'][0],
                                                           ev.base if ev else '?', ev.line if ev else '?',
                                                           ev.func if ev else '?')
         if len(cs) == 0:
@@ -291,6 +295,9 @@ def tally(out, inv, invs):
         out.count('openings_in_threads')
     if inv.outcome and inv.outcome[0] == 'exception':
         out.count('exception_exits')
+    if inv.ret_seq is not None and any(x.func == inv.func and x.tid != inv.tid and x.call_seq < inv.ret_seq and
+                                       (x.ret_seq is None or x.ret_seq > inv.call_seq) for x in invs):
+        out.count('openings_overlapping_same_function_in_another_thread')
 
 
 def check_completion(where, o, c, inv, probs):
